@@ -53,3 +53,54 @@ class Deadline:
 
     def over(self):
         return time.time() > self.t
+
+
+# ---- re-entrant callbacks -------------------------------------------------------------------------------------------------------
+import contextlib  # noqa: E402
+
+import optree  # noqa: E402
+
+_SMALL = {'b': [1, (2, None)], 'a': U.CSeq([3, {'z': 4}], meta='re'), 'c': U.Point(5, [6])}
+_REENT = [0]
+
+
+_TICKS = [0]
+_SMALL_LEAVES, _SMALL_SPEC = optree.tree_flatten(_SMALL)
+_REENT_OPS = (
+    lambda: optree.tree_flatten(_SMALL),
+    lambda: _SMALL_SPEC.unflatten(_SMALL_LEAVES),
+    lambda: (hash(_SMALL_SPEC), repr(_SMALL_SPEC), _SMALL_SPEC.paths()),
+    lambda: optree.tree_map(lambda x, y: x, _SMALL, _SMALL),
+    lambda: list(optree.tree_iter(_SMALL, is_leaf=lambda x: type(x) is tuple)),
+    lambda: _SMALL_SPEC.transform(lambda s_: s_, lambda s_: s_),
+    lambda: _SMALL_SPEC.flatten_up_to(_SMALL),
+    lambda: _SMALL_SPEC.broadcast_to_common_suffix(_SMALL_SPEC),
+    lambda: _SMALL_SPEC.accessors(),
+)
+
+
+def _reentrant_hook(site, obj):
+    """Harness callbacks the engine reaches (predicates, custom flatten / unflatten functions) call back into optree - user code does that
+    (the FlatCache pattern): every third callback runs one small operation, rotating through flatten, unflatten, hash / repr / paths, map, iter,
+    transform, flatten_up_to, broadcast, accessors."""
+    _TICKS[0] += 1
+    if _REENT[0] or _TICKS[0] % 3:
+        return
+    _REENT[0] += 1
+    try:
+        _REENT_OPS[(_TICKS[0] // 3) % len(_REENT_OPS)]()
+    finally:
+        _REENT[0] -= 1
+
+
+@contextlib.contextmanager
+def reentrant(on=True):
+    if not on:
+        yield
+        return
+    old = U.HOOK[0]
+    U.HOOK[0] = _reentrant_hook
+    try:
+        yield
+    finally:
+        U.HOOK[0] = old
